@@ -89,6 +89,8 @@ FILES = {
     # closure alphabet
     'a1': ('A', [(20, ('p', b'm')), (30, ('g', 10))]),
     't2': ('B', [(10, ('g', 30)), (30, ('p', b'k'))]),
+    # tokenised, larger than the program memory of the tight configuration
+    't9': ('B', [(10, ('r', b'nine'.ljust(40, b'.'))), (20, ('r', b'nine'.ljust(40, b','))), (30, ('p', b'k9'))]),
 }
 
 
@@ -141,6 +143,8 @@ def _ops_tight():
         ops.append(('empty', n))
     ops += [('del', 10, 20), ('del', 20, None), ('del', None, 10)]
     ops += [('renum', None, None, None), ('renum', 20, 20, 10), ('new',)]
+    # a tokenised file that fits and one that does not (tokenised files are read in one piece)
+    ops += [('load', 't2'), ('load', 't9')]
     return ops
 
 
@@ -223,9 +227,14 @@ def apply_op(s, model, op):
         must_accept = (fmt == 'A' or kind == 'load')
     if rejected:
         label = '%s:rejected-%s' % (kind, r.err)
-        if must_accept and r.err == 7 and getattr(model, 'tight', False):
+        if must_accept and (r.err == 7 or (r.err == 14 and kind == 'load')) and getattr(model, 'tight', False):
             # memory was limited with CLEAR: the line does not fit; nothing may have changed
+            # (LOAD: or the file name, a direct-mode string, does not fit in string space)
             label = '%s:out-of-memory' % kind
+            if kind == 'load' and not s._impl.program.line_numbers:
+                # (a LOAD that is refused may have discarded the old program already: then the program is empty)
+                model.new()
+                label = 'load:out-of-memory-program-discarded'
         elif must_accept:
             viols.append(('rejected/%s' % kind,
                           '%r rejected with error %s but the statement requires it to take effect' % (cmd, r.err)))
